@@ -59,6 +59,14 @@ def check_world(W, k, colocate, work, frac=None):
     from kfac.assignment import KAISAAssignment
 
     frac = k / W if frac is None else frac
+    # Constructions that must be refused (worker counts that do not divide the world; incl. those with the same W // k' as the valid
+    # one) are attempted first in the same process: whatever they do, they must not affect the valid objects built afterwards.
+    for k_bad in [kb for kb in range(2, W) if W % kb != 0][:6]:
+        try:
+            KAISAAssignment(work, local_rank=0, world_size=W, grad_worker_fraction=k_bad / W,
+                            group_func=lambda ranks: tuple(sorted(ranks)), colocate_factors=colocate)
+        except Exception:  # noqa: BLE001  (whether and how they are refused is checked elsewhere in this property)
+            pass
     insts = []
     for r in range(W):
         try:
